@@ -107,3 +107,50 @@ FORMULAS = [
     ("pressure as isotropic stress", "ctor", "Stress", ["StaticPressure"], lambda p: -p * eye(3)),
     ("StaticPressure::Stress()", "member", "StaticPressure", "Stress", [], lambda p: -p * eye(3)),
 ]
+
+# derived forms of the definitions above (same physics solved for another symbol)
+FORMULAS += [
+    # heat capacities: gamma = cp/cv, R = cp - cv  (extensive)
+    ("cv from cp and R", "ctor", "IsochoricHeatCapacity", ["IsobaricHeatCapacity", "GasConstant"], lambda cp, R: cp - R),
+    ("cv from R and gamma", "ctor", "IsochoricHeatCapacity", ["GasConstant", "HeatCapacityRatio"], lambda R, g: R / (g - 1)),
+    ("cv from cp and gamma", "ctor", "IsochoricHeatCapacity", ["IsobaricHeatCapacity", "HeatCapacityRatio"], lambda cp, g: cp / g),
+    ("cp from cv and R", "ctor", "IsobaricHeatCapacity", ["IsochoricHeatCapacity", "GasConstant"], lambda cv, R: cv + R),
+    ("cp from gamma and R", "ctor", "IsobaricHeatCapacity", ["HeatCapacityRatio", "GasConstant"], lambda g, R: g * R / (g - 1)),
+    ("cp from gamma and cv", "ctor", "IsobaricHeatCapacity", ["HeatCapacityRatio", "IsochoricHeatCapacity"], lambda g, cv: g * cv),
+    # ... specific (per unit mass)
+    ("specific cv from cp and R", "ctor", "SpecificIsochoricHeatCapacity", ["SpecificIsobaricHeatCapacity", "SpecificGasConstant"], lambda cp, R: cp - R),
+    ("specific cv from R and gamma", "ctor", "SpecificIsochoricHeatCapacity", ["SpecificGasConstant", "HeatCapacityRatio"], lambda R, g: R / (g - 1)),
+    ("specific cv from cp and gamma", "ctor", "SpecificIsochoricHeatCapacity", ["SpecificIsobaricHeatCapacity", "HeatCapacityRatio"], lambda cp, g: cp / g),
+    ("specific cp from cv and R", "ctor", "SpecificIsobaricHeatCapacity", ["SpecificIsochoricHeatCapacity", "SpecificGasConstant"], lambda cv, R: cv + R),
+    ("specific cp from gamma and R", "ctor", "SpecificIsobaricHeatCapacity", ["HeatCapacityRatio", "SpecificGasConstant"], lambda g, R: g * R / (g - 1)),
+    ("specific cp from gamma and cv", "ctor", "SpecificIsobaricHeatCapacity", ["HeatCapacityRatio", "SpecificIsochoricHeatCapacity"], lambda g, cv: g * cv),
+    # extensive <-> specific
+    ("cv extensive from specific", "ctor", "IsochoricHeatCapacity", ["SpecificIsochoricHeatCapacity", "Mass"], lambda c, m: c * m),
+    ("cp extensive from specific", "ctor", "IsobaricHeatCapacity", ["SpecificIsobaricHeatCapacity", "Mass"], lambda c, m: c * m),
+    ("cv specific from extensive", "ctor", "SpecificIsochoricHeatCapacity", ["IsochoricHeatCapacity", "Mass"], lambda C, m: C / m),
+    ("cp specific from extensive", "ctor", "SpecificIsobaricHeatCapacity", ["IsobaricHeatCapacity", "Mass"], lambda C, m: C / m),
+    ("mass from gas constants", "ctor", "Mass", ["GasConstant", "SpecificGasConstant"], lambda R, r: R / r),
+    ("mass from cp", "ctor", "Mass", ["IsobaricHeatCapacity", "SpecificIsobaricHeatCapacity"], lambda C, c: C / c),
+    ("mass from cv", "ctor", "Mass", ["IsochoricHeatCapacity", "SpecificIsochoricHeatCapacity"], lambda C, c: C / c),
+    # thermal diffusivity alpha = k/(rho cp), Prandtl Pr = cp mu / k = nu / alpha
+    ("conductivity from diffusivity", "ctor", "ScalarThermalConductivity", ["MassDensity", "SpecificIsobaricHeatCapacity", "ThermalDiffusivity"], lambda rho, cp, al: rho * cp * al),
+    ("conductivity from Prandtl number", "ctor", "ScalarThermalConductivity", ["SpecificIsobaricHeatCapacity", "DynamicViscosity", "PrandtlNumber"], lambda cp, mu, Pr: cp * mu / Pr),
+    ("cp from diffusivity", "ctor", "SpecificIsobaricHeatCapacity", ["ScalarThermalConductivity", "MassDensity", "ThermalDiffusivity"], lambda k, rho, al: k / (rho * al)),
+    ("cp from Prandtl number", "ctor", "SpecificIsobaricHeatCapacity", ["PrandtlNumber", "ScalarThermalConductivity", "DynamicViscosity"], lambda Pr, k, mu: Pr * k / mu),
+    ("viscosity from Prandtl number", "ctor", "DynamicViscosity", ["PrandtlNumber", "ScalarThermalConductivity", "SpecificIsobaricHeatCapacity"], lambda Pr, k, cp: Pr * k / cp),
+    # viscosities and Reynolds number
+    ("dynamic viscosity", "ctor", "DynamicViscosity", ["MassDensity", "KinematicViscosity"], lambda rho, nu: rho * nu),
+    ("dynamic viscosity from Reynolds number", "ctor", "DynamicViscosity", ["MassDensity", "Speed", "Length", "ReynoldsNumber"], lambda rho, v, L, Re: rho * v * L / Re),
+    ("length from Reynolds number (mu)", "ctor", "Length", ["ReynoldsNumber", "DynamicViscosity", "MassDensity", "Speed"], lambda Re, mu, rho, v: Re * mu / (rho * v)),
+    ("length from Reynolds number (nu)", "ctor", "Length", ["ReynoldsNumber", "KinematicViscosity", "Speed"], lambda Re, nu, v: Re * nu / v),
+    # strain / strain rate and time
+    ("strain from strain rate", "ctor", "Strain", ["StrainRate", "Time"], lambda D, t: D * t),
+    ("strain rate from strain", "ctor", "StrainRate", ["Strain", "Time"], lambda e, t: e / t),
+    ("strain from strain rate and frequency", "ctor", "Strain", ["StrainRate", "Frequency"], lambda D, f: D / f),
+    ("strain rate from strain and frequency", "ctor", "StrainRate", ["Strain", "Frequency"], lambda e, f: e * f),
+    ("scalar strain from scalar strain rate", "ctor", "ScalarStrain", ["ScalarStrainRate", "Time"], lambda d, t: d * t),
+    # pressure, force and traction over an area
+    ("pressure from force and area", "ctor", "StaticPressure", ["ScalarForce", "Area"], lambda f, a: f / a),
+    ("traction from force and area", "ctor", "Traction", ["Force", "Area"], lambda f, a: f / a),
+    ("planar traction from planar force and area", "ctor", "PlanarTraction", ["PlanarForce", "Area"], lambda f, a: f / a),
+]
